@@ -5,6 +5,8 @@ import (
 	"net"
 	"os"
 	"path/filepath"
+	"runtime"
+	"strings"
 	"sync"
 	"sync/atomic"
 	"time"
@@ -181,8 +183,23 @@ func StopClusterNode(c *cluster.ClusterNode, me NodeSpec) error {
 	conns := serverConns[me.Name()]
 	delete(serverConns, me.Name())
 	serverConnMu.Unlock()
+	before := rpcClientReaders()
 	for _, cn := range conns {
 		cn.Close()
+	}
+	// The other nodes of this process hold RPC clients on these connections. A client learns of the loss
+	// when its reader goroutine sees the end of the stream; until then a call on it is sent into the void
+	// and fails with "unexpected EOF" instead of taking the reconnect path. A dead process gives its peers
+	// the same moment of uncertainty; the harness waits it out so that what follows is determined: every
+	// such reader has ended (or two seconds have passed).
+	// (some of the recorded connections may have been given up by their client earlier, so the count need
+	// not drop by len(conns): it also counts as settled when it has not moved for 4 ms)
+	last, lastChange := rpcClientReaders(), time.Now()
+	for deadline := time.Now().Add(2 * time.Second); last > before-len(conns) && time.Now().Before(deadline) && len(conns) > 0 && time.Since(lastChange) < 4*time.Millisecond; {
+		time.Sleep(200 * time.Microsecond)
+		if n := rpcClientReaders(); n != last {
+			last, lastChange = n, time.Now()
+		}
 	}
 	// the address must be free again before a node is restarted on it (the next node dies in log.Fatal
 	// otherwise): wait until it can be bound
@@ -199,4 +216,15 @@ func StopClusterNode(c *cluster.ClusterNode, me NodeSpec) error {
 		time.Sleep(time.Millisecond)
 	}
 	return err
+}
+
+// rpcClientReaders counts the reader goroutines of net/rpc clients in this process.
+func rpcClientReaders() int {
+	buf := make([]byte, 1<<20)
+	n := runtime.Stack(buf, true)
+	for n == len(buf) {
+		buf = make([]byte, 2*len(buf))
+		n = runtime.Stack(buf, true)
+	}
+	return strings.Count(string(buf[:n]), "net/rpc.(*Client).input(")
 }
